@@ -392,7 +392,7 @@ KINDS = ["permutation", "translation", "rotation", "field_shift", "field_scale_p
 def jobs(tier, seed):
     js = [Job(f"rel-{k}", job_relation, k, 3, tier) for k in KINDS]
     if tier == "thorough":
-        js += [Job(f"rel-{k}-n4", job_relation, k, 4, tier) for k in ("permutation", "translation", "field_shift", "field_scale_neg", "mask")]
+        js += [Job(f"rel-{k}-n4", job_relation, k, 4, tier) for k in ("permutation", "translation", "field_shift", "mask", "no_data_trend")]  # (the scaling relation with 4 points is undecided at 180 s: claimed for 3 points only)
     js.append(Job("sampling", job_sampling, tier))
     js.append(Job("dir_test_rotation-noband", job_dir_test_rotation, False, tier))
     js.append(Job("dir_test_rotation-band", job_dir_test_rotation, True, tier))
